@@ -72,6 +72,10 @@ def switches(sw: Dict[str, bool]) -> dict:
     from .. import engine as E
     cfg: dict = {}
     cfg = E.deep_merge(cfg, {"perf": {"enabled": bool(sw["perf"]), "parallel": {"enabled": bool(sw["parallel"])}}})
+    if sw["perf"]:
+        # an open perf gate reports its metrics (both configurations of a pair carry this): what an open feature
+        # logs must not depend on the subtree of a closed one (e.g. perf.parallel.max_workers with the parallel gate closed)
+        cfg = E.deep_merge(cfg, {"perf": {"metrics": {"report_memory": True}}})
     if sw["parallel"]:
         cfg = E.deep_merge(cfg, {"perf": {"parallel": {"max_workers": 3, "t1": True, "t2": True}}})
     cfg = E.deep_merge(cfg, {"graph": {"enabled": bool(sw["graph"])}})
